@@ -5,13 +5,13 @@
 EXTENDS Builtins, TLC, Json, IOUtils
 U == ndJsonDeserialize(IOEnv.VERIF_UNIVERSE)
 M == ndJsonDeserialize(IOEnv.VERIF_TRACE)
+N == Len(U)
+C == [i \in 1..N |-> [j \in 1..N |-> Cmp(U[i], U[j])]]          \* the specified order, computed once
+BadPairs(m) == {p \in (1..N) \X (1..N) : m.rows[p[1]][p[2]] # C[p[1]][p[2]]}
 Bad(m) == IF "panic" \in DOMAIN m THEN << <<0, 0, 0, 0>> >>
-          ELSE LET RECURSIVE F(_, _, _)
-                   F(i, j, acc) == IF i > Len(U) \/ Len(acc) >= 5 THEN acc
-                                   ELSE IF j > Len(U) THEN F(i + 1, 1, acc)
-                                   ELSE LET c == Cmp(U[i], U[j]) IN
-                                        F(i, j + 1, IF m.rows[i][j] = c THEN acc ELSE Append(acc, <<i, j, m.rows[i][j], c>>))
-               IN F(1, 1, <<>>)
+          ELSE LET bp == BadPairs(m) IN
+               IF bp = {} THEN <<>>
+               ELSE LET p == CHOOSE q \in bp : TRUE IN << <<p[1], p[2], m.rows[p[1]][p[2]], C[p[1]][p[2]]>> >>
 VARIABLE done
 Init == done = ndJsonSerialize(IOEnv.VERIF_OUT, [k \in 1..Len(M) |-> [reps |-> M[k].reps, bad |-> Bad(M[k])]])
 Next == UNCHANGED done
